@@ -12,3 +12,10 @@ pub fn arc_drop_slow<T: ?Sized, A: core::alloc::Allocator>(_this: &mut std::sync
 pub fn format(_args: core::fmt::Arguments<'_>) -> String {
     String::new()
 }
+
+/// `RandomState::new()` reads OS randomness through a syscall Kani has no model for.  Harnesses
+/// that only *create* empty maps (an empty `Context`) use fixed keys instead; no lookup or
+/// insertion is executed on such a map, so the keys are never observed.
+pub fn random_state_new() -> std::hash::RandomState {
+    unsafe { core::mem::transmute::<[u64; 2], std::hash::RandomState>([0, 0]) }
+}
